@@ -69,6 +69,7 @@ def run_job(contract_module, cls_name, shape_idx, tier="quick", max_paths=None, 
         if f_setup is not None:
             I.call(f_setup, [I, sh], {})
         install_modular(I, C, qual)
+        I.permissive_opaque = bool(I.getattr(C, "permissive", False))
         n_returning = 0
         while True:
             ctx.begin_path()
